@@ -133,6 +133,27 @@ CLAIMED["C02"] = dict(
     ref="DESIGN.md section 2 (C02)",
     technique="TLA+ spec of layout + image constraints; TLC trace validation (code->spec) of assembled images and label tables")
 
+CLAIMED["C03"] = dict(
+    text="FJMacro.tla defines Inline: calls replaced by the callee's body with closed arguments substituted in ONE pass (environments hold only "
+         "closed expressions, so names cannot capture), every expansion's local labels renamed apart by expansion path, rep(n,i) unrolled for "
+         "i=0..n-1, namespace resolution (plain / leading dots / dotted), arity overloading. Seeded macro programs whose identifier pools make caller "
+         "labels collide with callee parameters, locals and rep iterators at several depths are inlined BY TLC (LocalNamesUnique checked); the real "
+         "assembler assembles the original, TLC's inlined macro-free program and the original split over two files at top-level boundaries - the images "
+         "and segments must be equal.",
+    note="Trusted: FJMacro!Inline as the meaning of 'textual inlining'. Programs are seeded samples (no recursion, warnings not errors, `$` never "
+         "passed as an argument, a body never spells a global like one of its own binders); small-scope exhaustive enumeration is planned.",
+    ref="DESIGN.md section 2 (C03)",
+    technique="TLA+ reference semantics (Inline) evaluated by TLC per program + differential assembly of original vs TLC-inlined vs file-split sources")
+CLAIMED["C16"] = dict(
+    text="(a) FJAsm!LabelsExact judged by TLC on assembled primitive programs (every source label at the address of the statement it precedes); "
+         "(b) on macro programs inlined by TLC (FJMacro), every local label of every expansion has its own table entry ending in ---<label> at the "
+         "address the inlined program gives it, global labels keep name and address; (c) FJLabels.tla: names are unique keys, the saved table survives "
+         "save/load, and breakpoints by address / exact label / substring resolve to exactly the addresses of the matching labels - TLC computes "
+         "Resolve on real tables (several labels on one address) and judges what get_breakpoint_handler returned.",
+    note="The exact spelling of expansion-path components (<file>:l<line>:<macro>) is not judged here; stale components across assemblies in one process are C13's (file bytes).",
+    ref="DESIGN.md section 2 (C02/C03/C16)",
+    technique="TLC trace validation of label tables (addresses, per-expansion names) and of breakpoint resolution against a TLA+ definition")
+
 NOT_YET = {}
 
 
